@@ -47,7 +47,13 @@ func H_C02_Refute() {
 	me := f.vAddSelf(selfInc, vBytes(vPick(2)))
 	m.incarnation.Store(selfInc + gap) // the counter may run ahead of the record (UpdateNode in flight)
 	if vPick(2) == 1 {
-		f.vAddConcreteAlive(vPeerA, 2)
+		// the accuser may be somebody we hold as alive, suspect, dead or departed ourselves (two nodes that have
+		// buried each other across a partition): its accusation is refuted all the same
+		by := f.vAddConcreteAlive(vPeerA, 2)
+		by.State = NodeStateType(vPick(4))
+		if by.State == StateSuspect {
+			f.vAddSuspicion(vPeerA, by)
+		}
 	}
 	preScore := vRange(0, 7)
 	m.awareness.score = preScore
